@@ -86,3 +86,6 @@ fn encode_kmer_len5_u64() {
     assert!(((v >> (2 * j)) & 3) as u8 == encode_base(s[4 - j]));
     assert!(v >> 10 == 0);
 }
+
+// decode_kmer (String code used by `ska nk`) was tried as a bounded harness at k = 5: CBMC ran out of memory
+// (24 GB) in chars().rev().collect(); it stays unverified (DESIGN §9.2).
